@@ -37,9 +37,8 @@ LEVEL_NOTE = ("Trusted: Coq kernel + vm_compute; the hand-written model (values 
               "declared per pool value and validated by the correspondence, not derived (msgpack is C01's subject); the error-category strings of "
               "DataValidationError.errors are read literally by the harness. Acceptance by append = validates AND the row can be sized "
               "(2**70 validates as INTEGER but append raises TypeError and stores nothing - the disposition of F-C05-1). "
-              "Partial: the 'values in column order' / 'stored row conforms' conclusions carry the guard 'the record is a dict' because a "
-              "non-dict MutableMapping is stored as its keys (finding F-C05-2, refuted theorem + guarded inputs). Outside the quantifier, modelled "
-              "as raising and covered by the atomicity theorem only: NULL-typed columns (TypeError), tuple/scalar entries.")
+              "Records are dicts or other mappings alike (F-C05-2 fixed by 4269430; its witness is in corpus()). Outside the quantifier, modelled "
+              "as raising and covered by the atomicity / acceptance theorems only: NULL-typed columns (TypeError), tuple/scalar entries.")
 DESIGN_REF = "DESIGN.md section 8, C05"
 COQ_IMPORTS = "From Orso Require Import Gen.C05_Types Model.C05."
 COQ_CHECKS = {"validate": "c05_validate_check", "hist": "c05_hist_check"}
@@ -57,7 +56,7 @@ TRUSTED = [
 ]
 ASSUMPTIONS = [
     "records are str-keyed mappings with distinct keys; values come from a pool with one or more values of every class in the regenerated class table",
-    "the history theorems' 'values in column order / row conforms' conclusions assume dict entries (F-C05-2 guard); atomicity has no guard",
+    "the history theorem C05_history is over records (dicts and other mappings); tuple/scalar entries are covered by C05_history_rows / C05_append_atomic / C05_append_accepts_iff",
     "rows supplied at construction are not validated by orso; 'every stored row conforms' is proved relative to the initial rows conforming",
 ]
 
@@ -631,23 +630,27 @@ def to_coq(case, obs):
 KNOWN_WITNESSES = {
     "F-C05-1": {"kind": "hist", "init": {"how": "schema", "schema": [["c0", "INTEGER", True]], "rows": []},
                 "entries": [{"k": "dict", "items": [["c0", 2]]}, {"k": "dict", "items": [["c0", 28]]}, {"k": "dict", "items": [["c0", 3]]}]},
-    "F-C05-2": {"kind": "hist", "init": {"how": "schema", "schema": [["c0", "INTEGER", True]], "rows": []},
-                "entries": [{"k": "mapping", "items": [["c0", 2]]}]},
 }
 
 
 def known(case, obs):
-    """F-C05-2: an append of a MutableMapping that is not a dict went through (the row stored is the mapping's keys)."""
-    if case["kind"] == "hist":
-        for rec, st in zip(case["entries"], obs["steps"]):
-            if rec["k"] == "mapping" and st["out"]["v"] == "ok":
-                return "F-C05-2"
+    """No known (unfixed) finding for C05: F-C05-1 and F-C05-2 are fixed, their witnesses are regression cases in corpus()."""
     return None
 
 
 def corpus():
     # F-C05-1 (fixed by 421aa6e): a failing size step after the store step left the row behind
     yield KNOWN_WITNESSES["F-C05-1"]
+    # F-C05-2 (fixed by 4269430): a mapping that is not a dict validated but its KEYS were stored as the row
+    yield {"kind": "hist", "init": {"how": "schema", "schema": [["c0", "INTEGER", True]], "rows": []},
+           "entries": [{"k": "mapping", "items": [["c0", 2]]}]}
+    yield {"kind": "hist", "init": {"how": "schema", "schema": [["c1", "VARCHAR", False], ["c0", "INTEGER", True]], "rows": [[5, 2]]},
+           "entries": [{"k": "mapping", "items": [["c0", 3], ["c1", 6]]}, {"k": "mapping", "items": [["c0", 5], ["c1", 6]]},
+                       {"k": "dict", "items": [["c1", 5]]}, {"k": "mapping", "items": [["c1", 24], ["c0", 0]]}]}
+    yield {"kind": "hist", "init": {"how": "dicts", "dicts": [[["c0", 2], ["c1", 5]]]},
+           "entries": [{"k": "mapping", "items": [["c1", 6], ["x0", 2]]}, {"k": "mapping", "items": [["c0", 28]]}]}
+    yield {"kind": "hist", "init": {"how": "names", "names": ["c0", "c1"], "rows": []},
+           "entries": [{"k": "mapping", "items": [["c1", 4], ["c0", 3]]}]}
     yield {"kind": "hist", "init": {"how": "dicts", "dicts": [[["c0", 2], ["c1", 5]]]},
            "entries": [{"k": "dict", "items": [["c0", 3], ["c1", 6]]}, {"k": "dict", "items": [["c1", 2]]}]}
     yield {"kind": "hist", "init": {"how": "dicts", "dicts": []}, "entries": [{"k": "dict", "items": [["c0", 3]]}]}
@@ -784,8 +787,8 @@ def _rand_record(rng, cols, p_good, names=None, in_hist=True):
                 items.append([x, rng.randrange(len(pool()))])
     rng.shuffle(items)
     r = rng.random()
-    pm = 0.05 if cols is not None and not in_hist else 0.012
-    k = "dict" if r < 0.92 - pm else "mapping" if r < 0.92 else "tuple" if r < 0.97 else "scalar"
+    pm = 0.12
+    k = "dict" if r < 0.94 - pm else "mapping" if r < 0.94 else "tuple" if r < 0.98 else "scalar"
     return {"k": k, "items": items}
 
 
